@@ -248,7 +248,7 @@ func H_C15_actgrad() {
 	if err != nil || y == nil {
 		return
 	}
-	ge, ok := backThrough(y)
+	ge, ok := backThroughFan(y, vrt.Param("fan"))
 	if !ok {
 		return
 	}
